@@ -639,6 +639,8 @@ def native_owner_witness(which):
             if not self._sens:
                 return out
             full = {'a': np.ones_like(t), 'b': t}
+            if not self._req:
+                return out, np.empty((len(t), 1, 0))           # every mechanistic parameter is fixed: no derivative is requested
             return out, np.stack([full[n_] for n_ in self._req], axis=1)[:, np.newaxis, :]
     names = ['a', 'b', 'Sigma base', 'Sigma rel.']
     vals = np.array([1.2, 0.4, 0.6, 0.3])
